@@ -49,6 +49,7 @@ class Models:
 
     # ------------------------------------------------------------------ globals
     def global_var(self, name, rd, st):
+        if name == 'nullopt': return Opaque('nullopt')
         return None
 
     def opaque_member(self, base, name, st):
@@ -88,6 +89,16 @@ class Models:
             return z3.ToReal(fl) if name == 'floor' else z3.ToReal(z3.If(z3.ToReal(fl) == x, fl, fl + 1))
         if name in ('abs', 'fabs'):
             x = A(0); return z3.If(x >= 0, x, -x)
+        if name in ('max', 'lowest', 'min', 'infinity') and len(args) == 0:
+            import fractions, sys as _sys
+            t = TY.of_node(n)
+            if t.kind == 'real':
+                if name == 'infinity': raise Unsupported('numeric_limits::infinity() has no value in exact real arithmetic (at %s)' % e.where(n, fr))
+                mx = fractions.Fraction(_sys.float_info.max)
+                return z3.RealVal(mx if name == 'max' else (-mx if name == 'lowest' else fractions.Fraction(_sys.float_info.min)))
+            if t.kind == 'int':
+                lo, hi = TY.INT_RANGES[t.name]
+                return z3.IntVal(hi if name == 'max' else lo)
         if name in ('min', 'max') and len(args) == 2:
             a = e.rv(args[0], st, fr); b = e.rv(args[1], st, fr)
             if z3.is_int(a) and z3.is_real(b): a = z3.ToReal(a)
@@ -562,6 +573,11 @@ class Models:
                 src = e.ev(args[1], st, fr)
                 e.assign_object(st, lv, src, fr); return lv
             v = e.rv(args[1], st, fr)
+            if a0t.kind == 'optional':
+                if isinstance(v, Opaque) and v.what == 'nullopt':
+                    v = Rec('optional', {'has': z3.BoolVal(False), 'value': e.load(st, e.member_lv(st, lv, 'value', None))})
+                elif not (isinstance(v, Rec) and v.t == 'optional'):
+                    v = Rec('optional', {'has': z3.BoolVal(True), 'value': v})
             e.store(st, lv, v); return lv
         if name in ('operator==', 'operator!=', 'operator<', 'operator-', 'operator+', 'operator<=', 'operator>', 'operator>=') and len(args) == 2:
             a = e.rv(args[0], st, fr); b = e.rv(args[1], st, fr)
